@@ -377,3 +377,34 @@ VARIANTS += [
     ("C18-inwords-unit", "C18", DUR, '            ("week", self.weeks),\n            ("day", self.remaining_days),\n            ("hour", self.hours),\n            ("minute", self.minutes),\n            ("second", self.remaining_seconds),\n        ]\n\n        if locale is None:', '            ("weeks", self.weeks),\n            ("day", self.remaining_days),\n            ("hour", self.hours),\n            ("minute", self.minutes),\n            ("second", self.remaining_seconds),\n        ]\n\n        if locale is None:', "INWORDS.units"),
     ("C18-is-now", "C18", DT, "        is_now = other is None\n\n        if is_now:\n            other = self.now()\n\n        diff = self.diff(other)\n\n        return pendulum.format_diff(diff, is_now, absolute, locale)", "        is_now = other is not None\n\n        if not is_now:\n            other = self.now()\n\n        diff = self.diff(other)\n\n        return pendulum.format_diff(diff, is_now, absolute, locale)", "FORWARD"),
 ]
+
+VARIANTS += [
+    ("C19-clean", "C19", None, "", "", None),
+    ("C19-drift", "C19", IV, "            start = getattr(self.start, method)(**{unit: i})", "            start = getattr(start, method)(**{unit: amount})", "RANGE.no-drift"),
+    ("C19-i-start", "C19", IV, "        i = amount\n        while op(start, end):", "        i = 0\n        while op(start, end):", "RANGE.shape"),
+    ("C19-i-advance", "C19", IV, "            i += amount\n", "            i += 1\n", "RANGE."),
+    ("C19-exclusive-end", "C19", IV, "        op = operator.le\n", "        op = operator.lt\n", "RANGE."),
+    ("C19-pair-mismatch", "C19", IV, '            method = "subtract"\n            op = operator.ge', '            method = "subtract"\n            op = operator.le', "RANGE.pairing"),
+    ("C19-selector", "C19", IV, "        if not self._absolute and self.invert:\n            method", "        if self.invert:\n            method", "RANGE.pairing"),
+    ("C19-yield-after", "C19", IV, "            yield start\n\n            start = getattr(self.start, method)(**{unit: i})\n\n            i += amount", "            start = getattr(self.start, method)(**{unit: i})\n\n            yield start\n\n            i += amount", "RANGE.order"),
+    ("C19-iter-unit", "C19", IV, '        return self.range("days")', '        return self.range("hours")', "RANGE.iter"),
+    ("C19-contains", "C19", IV, "        return self.start <= item <= self.end", "        return self.start <= item < self.end", "RANGE.contains"),
+    ("C19-rename-ok", "C19", IV, "        start, end = self.start, self.end\n\n        i = amount\n        while op(start, end):\n            yield start\n\n            start = getattr(self.start, method)(**{unit: i})", "        cur, end = self.start, self.end\n\n        i = amount\n        while op(cur, end):\n            yield cur\n\n            cur = getattr(self.start, method)(**{unit: i})", None),
+]
+
+VARIANTS += [
+    ("C20-clean", "C20", None, "", "", None),
+    ("C20-diff-no-us", "C20", TIME, "        ) * USECS_PER_SEC + self.microsecond\n", "        ) * USECS_PER_SEC\n", "UNITS.components"),
+    ("C20-diff-weight", "C20", TIME, "dt.hour * SECS_PER_HOUR + dt.minute * SECS_PER_MIN + dt.second", "dt.hour * SECS_PER_HOUR + dt.minute * SECS_PER_HOUR + dt.second", "UNITS.components"),
+    ("C20-diff-direction", "C20", TIME, "return klass(microseconds=us2 - us1)", "return klass(microseconds=us1 - us2)", "UNITS.components"),
+    ("C20-diff-abs-class", "C20", TIME, "        klass = Duration\n        if abs:\n            klass = AbsoluteDuration", "        klass = AbsoluteDuration\n        if abs:\n            klass = Duration", "DIFF.class"),
+    ("C20-subtract-drop-us", "C20", TIME, "            .subtract(\n                hours=hours, minutes=minutes, seconds=seconds, microseconds=microseconds\n            )", "            .subtract(hours=hours, minutes=minutes, seconds=seconds)", "CARRIER.shape"),
+    ("C20-subtract-uses-add", "C20", TIME, "            .subtract(\n", "            .add(\n", "CARRIER.shape"),
+    ("C20-carrier-tz", "C20", DT, "DateTime.EPOCH = DateTime(1970, 1, 1, tzinfo=UTC)", "DateTime.EPOCH = DateTime(1970, 1, 1)", "CARRIER.utc"),
+    ("C20-timedelta-days-ok", "C20", TIME, '        if delta.days:\n            raise TypeError("Cannot subtract timedelta with days to Time.")\n\n', "", "TIMEDELTA.arm"),
+    ("C20-timedelta-us", "C20", TIME, "return self.add(seconds=delta.seconds, microseconds=delta.microseconds)", "return self.add(seconds=delta.seconds)", "TIMEDELTA.arm"),
+    ("C20-sub-direction", "C20", TIME, "        return other.diff(self, False)", "        return self.diff(other, False)", "DIRECTION"),
+    ("C20-closest-lossy", "C20", TIME, "        if self.diff(dt1).total_seconds() < self.diff(dt2).total_seconds():", "        if self.diff(dt1).in_seconds() < self.diff(dt2).in_seconds():", "ORDER.resolution"),
+    ("C20-farthest-op", "C20", TIME, "        if self.diff(dt1).total_seconds() > self.diff(dt2).total_seconds():", "        if self.diff(dt1).total_seconds() < self.diff(dt2).total_seconds():", "ORDER.pairing"),
+    ("C20-closest-recon", "C20", TIME, "        dt1 = self.__class__(dt1.hour, dt1.minute, dt1.second, dt1.microsecond)\n        dt2 = self.__class__(dt2.hour, dt2.minute, dt2.second, dt2.microsecond)\n\n        if self.diff(dt1).total_seconds() <", "        dt1 = self.__class__(dt1.hour, dt1.minute, dt1.second)\n        dt2 = self.__class__(dt2.hour, dt2.minute, dt2.second, dt2.microsecond)\n\n        if self.diff(dt1).total_seconds() <", "RECON.gap"),
+]
